@@ -80,6 +80,20 @@ def run(chk):
     chk.absorb("id62", hash_cases, hres)
     chk.extra_cov["hash_call_sequences"] = len(hash_cases)
     chk.exhaustive = False
+    # --- the pattern the compiler bakes into key:id62 validation rules, and its recognition on read-back: every position
+    # (single / array item / map value), with and without rules of the collection itself, each presence spelling
+    ids = []
+    for c in all_cases:
+        if isinstance(c, dict) and c.get("kind") == "id" and c.get("id"):
+            ids.append(c)
+    pcases = []
+    for card, rules in (("single", ""), ("array", ""), ("array", "rules.minItems = 1"), ("array", "rules.uniqueItems = true\n    rules.maxItems = 3"),
+                        ("map", ""), ("map", "rules.minPairs = 1")):
+        for pres in (("", "! ", "? ") if card == "single" else ("", "! ")):
+            pcases.append({"card": card, "rules": rules, "pres": pres, "ids": []})
+    resp = chk.replay("id62-pattern", pcases, "pattern", timeout="60s")
+    chk.absorb("id62-pattern", pcases, resp)
+    chk.extra_cov["compiled_pattern_positions"] = len(pcases)
     # --- residual: raw random strings (outside the model's alphabet), parser totality only
     raw = []
     for _ in range(2000 if quick else 200000):
